@@ -424,6 +424,12 @@ def _run_layer_hook(world, lname, hook, inherited=False):
     beh, actions = _hook_beh(hspec)
     if inherited and hspec is None:
         beh, actions = 'ok', []
+    if beh.startswith('nth:'):
+        # 'nth:<k>:<behaviour>': behave that way on the k-th call only
+        _x, k, rest = beh.split(':', 2)
+        calls = world.__dict__.setdefault('hook_calls', {})
+        calls[(lname, hook)] = calls.get((lname, hook), 0) + 1
+        beh = rest if calls[(lname, hook)] == int(k) else 'ok'
     if hook in ('setUp', 'tearDown'):
         emit('layer.%s.enter' % hook, layer=lname, inh=inherited)
         world.point('layer.%s:%s' % (hook, lname))
